@@ -754,6 +754,9 @@ class SingleListGrader(ItemGrader):
         #    use _AutomaticFailure to pad expect and answers to equal length
         #    modify check to reject _AutomaticFailure
         pad_ans, pad_stud = get_padded_lists(answers, student_list)
+        # Pass our debuglog to the subgrader (as ListGrader does), so that one with debug=True can use it
+        if hasattr(self, 'debuglog'):
+            self.config['subgrader'].debuglog = self.debuglog
         # Modify the check function to deal with the padding
         checker = padded_check(self.config['subgrader'].check)
 
